@@ -128,6 +128,8 @@ def run(ctx):
                 "BAM read_record() validates the raw record after reading its body", start_after=_is_read_exact)
     R.must_pass(ctx, "C15.G", "noodles_bam::r#async::io::reader::record::read_record", r"noodles_bam::io::reader::record::validate$",
                 "async BAM read_record() validates the raw record after reading its body", start_after=_is_read_exact)
+    from .c05 import validate_formula_rule
+    validate_formula_rule(ctx, "C15.G")
     # fn-pointer typed fields in workspace ADTs would defeat the call graph: assert there are none
     fps = [(k, f["name"]) for k, a in fb.adts.items() for v in a["variants"] for f in v["fields"]
            if f["ty"].startswith("fn(") or " fn(" in f["ty"] and "dyn" not in f["ty"]]
